@@ -312,6 +312,51 @@ def r3_r5(ctx, F, hub):
                                       'rename(tmp, dst+".conflict-…") on the Conflict edge', 'the conflict-copy rename is not confined to the Conflict edge' if not pure_live else
                                       'on the Conflict outcome the staged file is renamed onto the live path: a stale write overwrites what another client committed', term_loc(b, mb))
                             reply_rule(ctx, b, fl, mb, 'PutResult', 'committed', 0, '%s:committed-false' % handler)
+                            # "its own bytes retrievable from a conflict-copy": the lost write is answered only after ITS staged
+                            # file became the conflict copy.  A way from the Conflict edge to the reply that skips the rename
+                            # (the copy "is already there", a dedup test) keeps the bytes only if what it found instead really
+                            # holds them and stays - a statement about values, not passed silently
+                            for rbi, rline in reply_sites(b, fl, 'PutResult', 'committed', 0):
+                                # (feasible paths from the Conflict edge with the rename's block cut out: a Result merged from the
+                                # rename and from the branch that skips it has ONE Ok edge, so the edge test alone does not see the skip)
+                                skip = set()
+                                for e_ in mine:
+                                    skip |= cfg.feasible_after_edge(e_, cut_blocks=(mb,))
+                                if cfg.can_reach(mb, rbi) and rbi in skip:
+                                    # what lets it skip?  the switches between the Conflict edge and the reply that still decide
+                                    # whether the rename runs; if one of them tests a hash read of the LIVE path, the "holder" it
+                                    # found is the live file itself - which the next commit or delete replaces: positively wrong
+                                    live_test = None
+                                    for xb in sorted(skip):
+                                        xt = b.blocks[xb]['term']
+                                        if xt['k'] != 'switch' or xt['on']['k'] == 'const' or not cfg.can_reach(xb, mb) or not cfg.can_reach(xb, rbi):
+                                            continue
+                                        work, seen_ = [xt['on']], set()
+                                        while work and len(seen_) < 200:
+                                            cur = work.pop()
+                                            if cur['k'] == 'const':
+                                                continue
+                                            for o in fl.origins(cur, mut_calls=True):
+                                                k_ = (o.kind, str(o.key), o.bb)
+                                                if k_ in seen_:
+                                                    continue
+                                                seen_.add(k_)
+                                                if o.kind == 'call' and o.key in hub.current_reads() and o.bb is not None and \
+                                                        hub.path_class(b, b.blocks[o.bb]['term']['args'][0]) == 'live':
+                                                    ra_ = b.blocks[o.bb]['term']['args'][0]
+                                                    # exactly the live path: nothing pushed onto its name (a conflict-copy name is the live path + suffix)
+                                                    if not any(x.kind == 'mutcall' for _, x in hub.deep_origins(b, ra_, mut_calls=True)) and not path_shape(F, fl, ra_)[1]:
+                                                        live_test = (xb, o.bb)
+                                                if o.kind in ('call', 'mutcall') and o.bb is not None:
+                                                    work += [a for a in b.blocks[o.bb]['term'].get('args', []) if a['k'] != 'const']
+                                    if live_test:
+                                        ctx.bad('C03.R5', '%s:conflict-copy-skipped-for-the-live-file' % handler,
+                                                '%s answers committed:false without keeping a conflict copy when a hash read of the LIVE path matches: the live file is not a '
+                                                'preserved copy - the next commit or delete of the path makes the loser\'s bytes vanish from the hub' % handler, term_loc(b, live_test[0]))
+                                        break
+                                    ctx.undecided('C03.R5', '%s can answer committed:false on the Conflict outcome without having renamed the staged file to a conflict copy '
+                                                  '(some test lets it skip the rename): that the lost bytes are kept elsewhere, for good, is not decided' % handler)
+                                    break
                 if not judged:
                     ctx.bad('C03.R3', '%s:rename-outside-decision' % handler, 'a rename of the staged file is reachable on neither outcome of cas_decide', term_loc(b, mb))
             elif c.endswith('remove_file') and classes == ['live']:
